@@ -27,7 +27,7 @@ def setup_state(ctx, method, mk_args):
     covers(ctx, exits)
     exits_partition(ctx, exits)
     for e in exits:
-        ctx.check(f"wf tool flags consistent @{e.kind}@{e.where}", wf_tool(ctx.w, e.heap, sref), e, ["C07", "C02"], "inv")
+        ctx.check(f"wf tool flags consistent @{e.kind}@{e.where}", wf_tool(ctx.w, e.heap, sref), e, ["C07", "C02", "C06"], "inv")
     return sref, h0, args, exits, info
 
 
